@@ -248,6 +248,15 @@ namespace c08
                 return true;
             if (mode_ == 2)
                 return false;
+            if (mode_ == 3)
+            {
+                // collision-free AND inside an allowed region; clearance() below measures the obstacles only, so some
+                // invalid states (outside the region) have a larger clearance than some valid ones
+                std::vector<double> r;
+                si_->getStateSpace()->copyToReals(r, s);
+                double x = r.empty() || !std::isfinite(r[0]) || std::fabs(r[0]) > 1e6 ? 0.2 : r[0];
+                return field(s) < 0 && std::cos(7 * x) > -0.6;
+            }
             return field(s) < 0;
         }
         double clearance(const ob::State *s) const override
@@ -267,7 +276,7 @@ namespace c08
         plan["kind"] = "c08";
         plan["space"] = genSpace(g, 0);
         plan["ompl_seed"] = (long)g.range(1, 1000000000);
-        plan["validity"] = (long)g.pick(std::vector<double>{0, 0, 0, 1, 2});
+        plan["validity"] = (long)g.pick(std::vector<double>{0, 0, 3, 3, 1, 2});
         int nops = (int)g.range(3, thorough ? 60 : 24);
         Json ops = Json::array();
         for (int i = 0; i < nops; i++)
